@@ -89,7 +89,7 @@ ASSUME LawIsItsDiagnostics ==
     UnitsForOK(SmallReg, d, listed) <=> /\ EachOnce(listed) /\ NoneMissing(SmallReg, d, listed)
                                         /\ NoneForeign(SmallReg, d, listed) /\ OwnCategory(SmallReg, d, listed)
 
-\* the base unit's own name is admitted only for that base unit to the first power (F13)
+\* the base unit's own name is listed for that base unit to the first power, and only there (F13)
 ASSUME BaseOnlyForFirstPower ==
   /\ Optional(SmallReg, DPow(DBase(M), 2)) = {} /\ Optional(SmallReg, DPow(DBase(M), -1)) = {}
   /\ Optional(SmallReg, DEmpty) = {} /\ Optional(SmallReg, DMul(DBase(M), DBase(S))) = {}
@@ -97,7 +97,8 @@ ASSUME BaseOnlyForFirstPower ==
   /\ ~UnitsForOK(SmallReg, DPow(DBase(M), 2), <<<<C1, N_are>>, <<NoCat, N_meter>>>>)
   /\ UnitsForOK(SmallReg, DPow(DBase(M), 2), <<<<C1, N_are>>>>)
   /\ UnitsForOK(SmallReg, DBase(M), <<<<C2, N_ft>>, <<NoCat, N_yd>>, <<NoCat, N_meter>>>>)
-  /\ UnitsForOK(SmallReg, DBase(M), <<<<NoCat, N_yd>>, <<C2, N_ft>>>>)
+  /\ ~UnitsForOK(SmallReg, DBase(M), <<<<NoCat, N_yd>>, <<C2, N_ft>>>>)                \* the base unit itself missing
+  /\ UnitsForOK(SmallReg, DBase(M), <<<<NoCat, N_yd>>, <<C2, N_ft>>, <<NoCat, M>>>>)   \* under its short name
   /\ ~UnitsForOK(SmallReg, DBase(M), <<<<C2, N_ft>>>>)                                  \* yd missing
   /\ ~UnitsForOK(SmallReg, DBase(M), <<<<C2, N_ft>>, <<C2, N_yd>>>>)                   \* wrong category
   /\ ~UnitsForOK(SmallReg, DBase(M), <<<<C2, N_ft>>, <<NoCat, N_yd>>, <<C2, N_foot>>>>) \* an alias
